@@ -44,8 +44,7 @@ theorem list_errors_agree (s : State) (g : Id) (hg : s.isGroup g = true) :
   · intro k hk
     simp [step, Op.target, hg, opPop, hk]
   · intro k hk
-    have hc : (updateRecord .current s g).children = s.children := (updateRecord_same _ s g).children
-    simp [step, Op.target, hg, opDelitem, hc, hk]
+    simp [step, Op.target, hg, opDelitem, hk]
 
 /-! ### non-vacuity -/
 
